@@ -338,6 +338,18 @@ func tupleConfigs(r *rand.Rand, n int) []tupleCfg {
 		{src: [4]byte{128, 0, 0, 1}, dst: [4]byte{255, 255, 255, 255}, sport: 0x8000, dport: 0x0080},
 		{src: [4]byte{0, 0, 0, 1}, dst: [4]byte{1, 0, 0, 0}, sport: 0xffff, dport: 1},
 		{src: [4]byte{0x7f, 0x80, 0xff, 0}, dst: [4]byte{0xff, 0, 0x80, 0x7f}, sport: 0x00ff, dport: 0xff00},
+		// tuples made of the values the generator's own source mentions (the tcpdump expression it was generated from:
+		// src 2.4.6.8 port 1234, dst 1.3.5.7 port 5678) and of the constants the program itself compares with (ethertypes,
+		// protocol numbers, the fragment mask, header offsets): a generator that patches a template by VALUE confuses them
+		{src: [4]byte{2, 4, 6, 8}, dst: [4]byte{1, 3, 5, 7}, sport: 1234, dport: 5678},
+		{src: [4]byte{1, 3, 5, 7}, dst: [4]byte{2, 4, 6, 8}, sport: 5678, dport: 1234},
+		{src: [4]byte{10, 204, 0, 9}, dst: [4]byte{10, 203, 0, 2}, sport: 5678, dport: 40000},
+		{src: [4]byte{10, 204, 0, 9}, dst: [4]byte{10, 203, 0, 2}, sport: 443, dport: 1234},
+		{src: [4]byte{1, 3, 5, 7}, dst: [4]byte{10, 203, 0, 2}, sport: 443, dport: 40000},
+		{src: [4]byte{10, 204, 0, 9}, dst: [4]byte{2, 4, 6, 8}, sport: 1234, dport: 1234},
+		{src: [4]byte{0, 0, 8, 0}, dst: [4]byte{0, 0, 0x1f, 0xff}, sport: 0x0800, dport: 0x1fff},
+		{src: [4]byte{0, 0, 0, 6}, dst: [4]byte{0, 0, 0, 1}, sport: 6, dport: 0x86dd},
+		{src: [4]byte{0, 0, 0, 14}, dst: [4]byte{0, 0, 0, 20}, sport: 14, dport: 16},
 	}
 	for len(cfgs) < n {
 		var c tupleCfg
